@@ -15,6 +15,8 @@ import (
 	"strconv"
 	"strings"
 	"unicode/utf8"
+
+	"verif/core"
 )
 
 // ---------------------------------------------------------------------------
@@ -597,6 +599,8 @@ func (d Dir) Text() string {
 			s += strconv.FormatInt(n, 10)
 		case "bool":
 			s += strconv.FormatBool(a["v"].(bool))
+		case "str":
+			s += core.QuoteSoy(a["v"].(string))
 		default:
 			s += fmt.Sprint(a["v"])
 		}
